@@ -339,9 +339,31 @@ def poolOp (s : PSt) (op : String) : Option (List PSt) := do
           pure [applyProbe s w { stamp := stamp, booted := false, ok := false, broken := false, uuids := [],
                                  timedOut := t, allGivenUp := false }]
     | _ => pure [s]
-  | "pa", [w, ok, br, g, us] =>
+  | "gs", [mode, r, ls] =>
+    -- getInstancesAndSync: threshold := now, Instances() answers ok / plain error / rate-limit error
+    let r ← parseBool r
+    let res ← (if mode == "k" then do
+        let ls ← (if ls == "-" then some [] else (ls.splitOn "/").mapM parseListed)
+        pure (Pool.ListResult.ok ls)
+      else if mode == "e" || mode == "r" then some Pool.ListResult.failed else none)
+    let before := s.pool.workers.map (·.id)
+    let p := s.pool.getInstancesAndSync res (fun _ => r) now (now + 1)
+    let dropped := sortNat (before.filter (fun i => !(p.workers.any (fun w => w.id == i))))
+    pure [{ s with pool := p, clock := now + 1, out := s.out ++ ["d" ++ showUs dropped] }]
+  | "pa", w :: ok :: br :: g :: us :: layout =>
     let w ← w.toNat?
     let ok ← parseBool ok; let br ← parseBool br; let g ← parseBool g; let us ← parseUs us
+    -- optional layout of the answer: where "broken" stands among the lines, and stale run locks
+    let (pos, stale) ← (match layout with
+      | [] => some (0, [])
+      | [pos, st] => do pure ((← pos.toNat?), (← parseUs st))
+      | _ => none)
+    let ulines := us.map ProbeLine.uuid ++ stale.map ProbeLine.stale
+    let k := if pos == 1 then 0 else if pos == 2 then ulines.length / 2 else ulines.length
+    let lines := ulines.take k ++ (if br then [ProbeLine.broken] else []) ++ ulines.drop k ++ [ProbeLine.empty]
+    let parsed := parseProbe lines
+    let us := parsed.1
+    let br := parsed.2.1
     match s.probes.find? (fun q => q.1 == w) with
     | some (_, .mid stamp booted t) =>
       pure [applyProbe s w { stamp := stamp, booted := booted, ok := ok, broken := ok && br,
